@@ -1,5 +1,7 @@
 ---------------------------- MODULE Rep ----------------------------
 (* REP socket with contexts (src/sp/protocol/reqrep0/rep.c), macro steps through the harness transport.
+   The RESPONDENT (src/sp/protocol/survey0/respond.c) is the same state machine (C07), except that it refuses every
+   zero-timeout send (NbSendFails; known finding under C15).
    C04 (replier side: the reply goes to the connection and with the backtrace of the request most recently
    received by that context; send before receive and a second concurrent receive fail with NNG_ESTATE),
    C13 (backtrace capture, hop limit), C11 (malformed request headers), C15.
@@ -9,6 +11,7 @@
 EXTENDS Naturals, Sequences, FiniteSets, TLC, Json
 
 CONSTANTS Pipes, MaxMsgs, MaxOps, HopCounts,
+          NbSendFails,      \* TRUE (RESPONDENT as it is): a send with a zero timeout fails before the state machine is consulted
           ClearReadable     \* TRUE: losing the only pipe with a held request clears the receive pollable (repaired)
 
 Ctxs == {0, 1}
@@ -106,7 +109,9 @@ Send(c, mode) ==
          act(o) == IF mode = "nb" THEN [a |-> "send", mode |-> "nb", op |-> 0, m |-> m, ctx |-> c, out |-> o]
                                   ELSE [a |-> "send", mode |-> "aio", op |-> k, m |-> m, ctx |-> c, out |-> [done |-> <<>>]]
          fin(S, rv) == IF mode = "nb" THEN Apply(S, act([rv |-> rv, done |-> <<>>])) ELSE Apply(Fin(S, k, rv, 0), act(0))
-     IN IF b = <<>> THEN fin(A, "estate")                                            \* no request to answer
+     IN IF NbSendFails /\ mode = "nb" THEN
+           Apply([A0 EXCEPT !.writable = IF c = 0 THEN FALSE ELSE @], act([rv |-> "eagain", done |-> <<>>]))
+        ELSE IF b = <<>> THEN fin(A, "estate")                                            \* no request to answer
         ELSE IF p \notin A.up THEN fin(A, "ok")                                      \* the requester is gone: accepted and discarded
         ELSE IF ~Busy(A, p) THEN
              fin([A EXCEPT !.wire = [@ EXCEPT ![p] = <<[bt |-> b, m |-> m]>>],
